@@ -296,7 +296,7 @@ def check(res, tier, replay=None):
                         owners.append((m, sidx, u))
             hx = os.path.join(d, "hx")
             os.makedirs(hx, exist_ok=True)
-            impl, model = L.run_stream_layer(prep, harness, lines, hx)
+            impl, model = L.run_stream_layer(prep, harness, lines, hx, res)
             pad = ["<missing>"] * len(lines)
             for (m, sidx, u), l, a, b in zip(owners, lines, impl + pad, model + pad):
                 m.model[(sidx, u)] = b
